@@ -368,3 +368,17 @@ Definition e_run_pipeline (v : uval) : uval :=
 (* [frames; valid frames handed; replies; unfinished] *)
 Definition e_P09 (v : uval) : uval :=
   vbool (P09 (map getpframe (getL (arg 0 v))) (getbytes (arg 1 v)) (getpairs (arg 2 v)) (getnat (arg 3 v))).
+
+(* ---- C10 ---- *)
+From PV Require Import Model.DeviceEntry Spec.C10.
+Definition getdevev (v : uval) : dev_ev :=
+  match getN (arg 0 v) with 0%N => Arrive (getnat (arg 1 v)) | 1%N => CreateDone (getnat (arg 1 v)) | _ => UserGet (getnat (arg 1 v)) end.
+Definition vnatpairs (l : list (nat * nat)) : uval := vlist (fun p => VL [vnat (fst p); vnat (snd p)]) l.
+Definition getnatpairs (v : uval) : list (nat * nat) := map (fun p => (getnat (arg 0 p), getnat (arg 1 p))) (getL v).
+(* [locked; events] -> [objects; setups; handled; got; pending creations; lock waiters] *)
+Definition e_drun (v : uval) : uval :=
+  let s := drun (getbool (arg 0 v)) (map getdevev (getL (arg 1 v))) in
+  VL [vnat (next_obj s); vnat (setups s); vnatpairs (handled s); vnatpairs (got s); vnat (length (creating s)); vnat (length (waitq s))].
+(* [objects; setups; handled; got] *)
+Definition e_P10 (v : uval) : uval :=
+  vbool (P10 (getnat (arg 0 v)) (getnat (arg 1 v)) (getnatpairs (arg 2 v)) (getnatpairs (arg 3 v))).
